@@ -489,7 +489,15 @@ func (r *Run) compose(g *kit.Gor, call *UpCall, req *http.Request, res, planIdx 
 		add("ETag", etag)
 	}
 	if plan.Vary != "" {
-		add("Vary", plan.Vary)
+		if plan.VaryLines {
+			for _, f := range strings.Split(plan.Vary, ",") {
+				if f = strings.TrimSpace(f); f != "" {
+					add("Vary", f) // several field lines are one list (RFC 9110 §5.3)
+				}
+			}
+		} else {
+			add("Vary", plan.Vary)
+		}
 	}
 	target := func(kind string, tr int) string {
 		t := &r.Scn.Resources[tr%len(r.Scn.Resources)]
@@ -519,11 +527,25 @@ func (r *Run) compose(g *kit.Gor, call *UpCall, req *http.Request, res, planIdx 
 	for _, kv := range plan.Hop {
 		add(kv[0], strings.ReplaceAll(kv[1], "$SID", strconv.Itoa(sid)))
 	}
+	bare := is304 && plan.Bare304
+	if bare {
+		// a minimal 304: the date and the validators, nothing to update and nothing that tells it apart
+		keep := map[string]bool{"Date": true, "Etag": true, "Last-Modified": true}
+		var o2 []string
+		for _, k := range order {
+			if keep[k] {
+				o2 = append(o2, k)
+			} else {
+				delete(h, k)
+			}
+		}
+		order = o2
+	}
 	var body []byte
 	if bodyAllowed(req.Method, status) {
 		body = makeBody(sid, plan.BodyLen, plan.BodyClass)
 	}
-	or := &OResp{SID: sid, Call: call, Res: res, PlanIdx: planIdx, Plan: plan, Req: call.Req, Status: status, Body: body, Is304: is304, Version: ver, VarKey: varKey}
+	or := &OResp{Bare: bare, SID: sid, Call: call, Res: res, PlanIdx: planIdx, Plan: plan, Req: call.Req, Status: status, Body: body, Is304: is304, Version: ver, VarKey: varKey}
 	// (an empty body still has framing that can be cut when it is chunked: the last-chunk line and the trailers)
 	or.Complete = plan.Fault == "" || (len(body) == 0 && plan.Framing != "chunked")
 
